@@ -301,6 +301,14 @@ func forEachStdCase(w *fw.W, o stdOpts, fn func(cs *world.Case, family string)) 
 					}
 					cs.Note = "ENTRY " + e + " " + seqName(alpha, seq)
 					fn(cs, "ENTRY")
+					if e == "call" || e == "callcode" {
+						// sender and recipient are the same account (a transfer to oneself: both sides of every
+						// balance bookkeeping alias)
+						self := *cs
+						self.From = gen.T
+						self.Note = "ENTRY-SELF " + e + " " + seqName(alpha, seq)
+						fn(&self, "ENTRY")
+					}
 				}
 			}
 		})
